@@ -1154,6 +1154,13 @@ class Gen:
         c = self.wch([("table", 6), ("subq", 1.5), ("heapq", 6 if self.k["autoalias"] else 1), ("cte", 0.4), ("setop", 0.3)])
         if c == "table":
             item = self.g_table(join_pos=True)
+            if self.k["autoalias"] and self.p(0.35):
+                # self-join BY REFERENCE: the very Table object that already sits in the receiver's FROM list (the one
+                # case in which the library writes an alias into a table; a rejected join must not leave it behind)
+                fr = [x for x in (lib.state(v).get("_from") or []) if isinstance(x, self.L.queries.Table)]
+                own = self.slots(lambda hv, i: any(hv is x for x in fr) and self.alias_of(hv) is None)
+                if own:
+                    item = self.var(self.ch(own))
         elif c == "subq":
             item = self.g_query(1, aliased=self.p(0.6))
         elif c == "heapq":
